@@ -61,7 +61,10 @@ def _initialize_window_functions():
 
         if not ("M" in sig.parameters and "sym" in sig.parameters):
             continue
-        elif len(sig.parameters) > 2:
+        elif any(
+            key not in ("M", "sym") and p.kind is not p.KEYWORD_ONLY
+            for key, p in sig.parameters.items()
+        ):
             continue
 
         _WINDOW_FUNCTIONS[name] = func
